@@ -325,6 +325,7 @@ class ContractionProcessor:
         "track_flops",
         "flops",
         "flops_limit",
+        "flops_multiplier",
     )
 
     def __init__(
@@ -370,6 +371,9 @@ class ContractionProcessor:
         self.track_flops = track_flops
         self.flops = 0
         self.flops_limit = flops_limit
+        # total size of any indices removed by ``simplify_batch``: these take
+        # part in every contraction, so scale the tracked flops by a constant
+        self.flops_multiplier = 1
 
     def copy(self):
         new = ContractionProcessor.__new__(ContractionProcessor)
@@ -383,6 +387,7 @@ class ContractionProcessor:
         new.track_flops = self.track_flops
         new.flops = self.flops
         new.flops_limit = self.flops_limit
+        new.flops_multiplier = self.flops_multiplier
         return new
 
     def neighbors(self, i):
@@ -471,6 +476,7 @@ class ContractionProcessor:
                 ix_to_remove.append(ix)
         for ix in ix_to_remove:
             self.remove_ix(ix)
+            self.flops_multiplier *= self.sizes[ix]
 
     def simplify_single_terms(self):
         """Take any diags, reductions and traces of single terms."""
@@ -1150,6 +1156,10 @@ def optimize_random_greedy_track_flops(
             best_flops = cp.flops
             # enable even earlier stopping
             cp0.flops_limit = best_flops
+
+    # account for indices that appear on every term, which were dropped
+    # before optimizing but still take part in every single contraction
+    best_flops *= cp0.flops_multiplier
 
     # for consistency with cotengrust / easier comparison
     best_flops = math.log10(best_flops)
